@@ -32,7 +32,7 @@ Definition interp (dt : dtype) (b : bytes) : option fval :=
       | _ => None
       end%nat
   | DProto => if Nat.eqb (length b) 1
-              then match proto_parse (be b) with Some d => Some (VProto d) | None => None end
+              then Some (VProto (proto_decode (be b)))     (* a number without a name is Unknown *)
               else None
   | DVec | DUnknown => Some (VVec b)
   end.
